@@ -217,8 +217,13 @@ def splice(items, annots, report):
     def locate(anchor):
         # alternatives `A ||| B`: the first alternative that matches exactly one line
         # (lets one annotation file follow a function through a known repair)
+        # an alternative ending in " ..." matches by prefix (the rest of the statement is free to change)
         for alt in [a.strip() for a in anchor.split("|||")]:
-            hits = [k for k, (rule, orig, new) in enumerate(items) if orig and orig[0].strip() == alt]
+            if alt.endswith(" ..."):
+                pre = alt[:-4]
+                hits = [k for k, (rule, orig, new) in enumerate(items) if orig and orig[0].strip().startswith(pre)]
+            else:
+                hits = [k for k, (rule, orig, new) in enumerate(items) if orig and orig[0].strip() == alt]
             if len(hits) == 1:
                 return hits[0]
         raise ExtractError("lost-anchor: %r matches no single line" % anchor)
